@@ -12,8 +12,10 @@ import (
 	"verifharness/internal/gen"
 )
 
-var aliases = []string{"s", "i", "i8", "i64", "u", "u16", "u64", "b", "ss", "is", "i64s", "us", "bs", "ts", "qt"}
-var hdrAliases = []string{"X-S", "X-I", "X-I8", "X-I64", "X-U", "X-U16", "X-U64", "X-B", "X-Ss", "X-Is", "X-I64s", "X-Us", "X-Bs", "X-Ts", "X-Qt"}
+var aliases = []string{"s", "i", "i8", "i64", "u", "u16", "u64", "b", "ss", "is", "i64s", "us", "bs", "ts", "qt",
+	"i16", "i32", "u8", "u32", "i8s", "u16s", "nt", "n"}
+var hdrAliases = []string{"X-S", "X-I", "X-I8", "X-I64", "X-U", "X-U16", "X-U64", "X-B", "X-Ss", "X-Is", "X-I64s", "X-Us", "X-Bs", "X-Ts", "X-Qt",
+	"X-I16", "X-I32", "X-U8", "X-U32", "X-I8s", "X-U16s", "X-Nt", "N"}
 
 var rawVals = []string{"", "0", "1", "-1", "+1", "127", "128", "-128", "-129", "255", "256", "65535", "65536",
 	"9223372036854775807", "9223372036854775808", "-9223372036854775808", "-9223372036854775809", "18446744073709551615",
@@ -174,14 +176,57 @@ var ctypes = []string{
 	"multipart/mixed; boundary=XBOUNDX", "text/plain", "", ";", " ", "/", "application/", "json", "application/json\t", "application/xml+json",
 }
 
+// normKey mirrors the bracket normalisation only to keep generated multipart names apart
+// (generation filter; the verdict never depends on it).
+func normKey(k string) (string, bool) {
+	if !strings.Contains(k, "[") {
+		return k, true
+	}
+	var b strings.Builder
+	open := 0
+	for i := 0; i < len(k); i++ {
+		switch c := k[i]; c {
+		case '[':
+			open++
+			if i+1 < len(k) && k[i+1] != ']' {
+				b.WriteByte('.')
+			}
+		case ']':
+			open--
+			if open < 0 {
+				return "", false
+			}
+		default:
+			b.WriteByte(c)
+		}
+	}
+	return b.String(), open == 0
+}
+
 func multipartBody(r *gen.Rand) string {
 	var buf bytes.Buffer
 	mw := multipart.NewWriter(&buf)
 	_ = mw.SetBoundary("XBOUNDX")
 	cs := casing{}
-	for i := r.Intn(6); i > 0; i-- {
+	// bindMultipart walks a Go map: two different names that bracket-normalise to one key would make
+	// the bound value depend on the iteration order. One spelling per normalised key.
+	seen := map[string]string{}
+	for i := r.Intn(8); i > 0; i-- {
 		k := keyVariant(r, cs.cased(r, gen.Pick(r, aliases)))
-		_ = mw.WriteField(k, gen.Pick(r, rawVals))
+		if n, ok := normKey(k); ok {
+			if prev, dup := seen[n]; dup && prev != k {
+				continue
+			}
+			seen[n] = k
+		}
+		v := gen.Pick(r, rawVals)
+		if r.Chance(1, 6) {
+			v = genString(r, "query", false)
+		}
+		_ = mw.WriteField(k, v)
+		if r.Chance(1, 5) { // a second value under the same name
+			_ = mw.WriteField(k, gen.Pick(r, rawVals))
+		}
 	}
 	if r.Bool() {
 		fw, _ := mw.CreateFormFile("file1", "f.txt")
@@ -227,6 +272,9 @@ func genRaw(w *gen.Writer, r *gen.Rand, id string, split, auto bool) {
 				v = genString(r, "cookie", false)
 			}
 			k := cs.cased(r, gen.Pick(r, aliases))
+			if r.Chance(1, 5) {
+				k = keyVariant(r, k) // the cookie binder does NOT normalise brackets: these keys stay literal
+			}
 			switch r.Intn(12) {
 			case 0:
 				parts = append(parts, v)
@@ -254,20 +302,32 @@ func genRaw(w *gen.Writer, r *gen.Rand, id string, split, auto bool) {
 		var body string
 		v := genValue(r, "json", false)
 		fixValue(v, "xml")
-		switch r.Intn(6) {
+		// two times out of three the content type is one of the family the body was written for
+		match := func(family []string) {
+			if r.Chance(2, 3) {
+				ct = gen.Pick(r, family)
+			}
+		}
+		switch r.Intn(7) {
 		case 0:
 			b, _ := json.Marshal(v)
 			body = string(b)
+			match([]string{"application/json", "application/json; charset=utf-8", "APPLICATION/JSON", "application/vnd.api+json", "application/json ;x"})
 		case 1:
 			b, _ := xml.Marshal(v)
 			body = string(b)
+			match([]string{"application/xml", "text/xml", "text/xml; charset=utf-8", "TEXT/XML", "application/problem+xml"})
 		case 2:
 			b, _ := cbor.Marshal(v)
 			body = string(b)
-		case 3:
+			match([]string{"application/cbor", "application/cbor;", "application/x+cbor"})
+		case 3, 4:
 			body = multipartBody(r)
-		case 4:
+			match([]string{"multipart/form-data; boundary=XBOUNDX", "multipart/form-data;boundary=XBOUNDX", "multipart/form-data; boundary=\"XBOUNDX\"",
+				"multipart/form-data; charset=utf-8; boundary=XBOUNDX", "multipart/form-data; boundary=XBOUNDX", "Multipart/Form-Data; boundary=XBOUNDX", "multipart/form-data"})
+		case 5:
 			body = genArgs(r, aliases, true)
+			match([]string{"application/x-www-form-urlencoded", "application/x-www-form-urlencoded; charset=UTF-8", "Application/X-WWW-Form-Urlencoded"})
 		default:
 			body = randBytes(r, r.Intn(60))
 		}
